@@ -58,7 +58,12 @@ impl Step {
     pub fn all_ins(&self) -> impl Iterator<Item = &String> {
         self.ordering().chain(self.vals.iter())
     }
+    /// Command text.  Version 0 stands for a rule whose command evaluates to the empty string
+    /// (a real, non-phony step that runs `/bin/sh -c ""`).
     pub fn cmd(&self, agent: &str) -> String {
+        if self.ver == 0 {
+            return String::new();
+        }
         format!("{} {} v{}", agent, self.id, self.ver)
     }
 }
@@ -370,11 +375,14 @@ pub fn respell(p: &str, rng: &mut Rng) -> String {
     if rooted {
         out.push('/');
     }
-    let mut emit_noise = |out: &mut String, rng: &mut Rng| match rng.below(5) {
+    // n2 reads both '/' and '\\' as separators; noise written with either disappears entirely
+    let mut emit_noise = |out: &mut String, rng: &mut Rng| match rng.below(8) {
         0 => out.push_str("./"),
         1 => out.push_str("zz/../"),
         2 => out.push_str(".//"),
         3 => out.push_str("q/r/../../"),
+        4 => out.push_str(".\\"),
+        5 => out.push_str("zz\\..\\"),
         _ => {}
     };
     // noise "x/.." before a leading ".." would change meaning only if it came
@@ -425,7 +433,9 @@ impl Project {
                     t.push_str(&format!("cmd_{} = {}\n", s.id, esc_val(&s.cmd(&self.agent))));
                 }
                 t.push_str(&format!("rule {}\n", rn));
-                if opts.via_vars {
+                if s.ver == 0 {
+                    t.push_str("  command = $this_variable_is_not_defined\n");
+                } else if opts.via_vars {
                     t.push_str(&format!("  command = $cmd_{}\n", s.id));
                 } else {
                     t.push_str(&format!("  command = {}\n", esc_val(&s.cmd(&self.agent))));
@@ -444,7 +454,12 @@ impl Project {
                     t.push_str(&format!("  rspfile_content = {}\n", esc_val(c)));
                 }
                 if let Some(p) = &s.pool {
-                    t.push_str(&format!("  pool = {}\n", p));
+                    if opts.via_vars {
+                        // the pool name comes from a binding in the build block
+                        t.push_str("  pool = $job_pool\n");
+                    } else {
+                        t.push_str(&format!("  pool = {}\n", p));
+                    }
                 }
                 if self.quiet_generator && s.effect == Effect::Generator {
                     t.push_str("  hide_success = 1\n");
@@ -490,6 +505,11 @@ impl Project {
                 }
             }
             t.push('\n');
+            if opts.via_vars && !s.phony {
+                if let Some(p) = &s.pool {
+                    t.push_str(&format!("  job_pool = {}\n", p));
+                }
+            }
             if opts.noise {
                 t.push('\n');
             }
